@@ -396,6 +396,20 @@ def run(prog, rep, tier):
                 check_decrypt_site(prog, body, b, rep, RULE='R07.8')
     rep.floor('R07.8', nrk, 1, 'decrypt site of retrieve_key')
 
+    # ---------------- R07.9 "opened with the private key of any one recipient": the header holding one wrapped key per recipient is read back with the limit
+    # the writer side lives under (BINCODE_MAX_DESERIALIZE), not with a smaller one that a long recipient list exceeds
+    hf = one_body(prog, rep, 'R07.9', 'mla', exact='ArchiveHeader::from')
+    if hf is not None:
+        des = [b for b in hf.calls() if b.term.cmethod in ('deserialize_from', 'deserialize') and 'bincode' in (b.term.ctrait + cnorm(b.term))]
+        okl = False
+        for b in des:
+            if b.term.args and b.term.args[0].place is not None:
+                o = origins(hf, [b.term.args[0].place[0]])
+                if any((c.get('def') or '').endswith('BINCODE_MAX_DESERIALIZE') for c in o.consts) and not [c for c in o.consts if (c.get('def') or '').endswith(('_MAX_SIZE', '_LIMIT')) and not (c.get('def') or '').endswith('BINCODE_MAX_DESERIALIZE')]:
+                    okl = True
+        rep.ob('R07.9', bool(des) and okl, 'R07.9|%s|header-limit-is-the-format-limit' % hf.nkey, 'the header configuration is deserialised under BINCODE_MAX_DESERIALIZE' if (des and okl) else
+               'the header configuration (one wrapped key per recipient) is deserialised under another limit than BINCODE_MAX_DESERIALIZE: an archive written for many recipients cannot be opened by any of them', hf.loc(des[0].idx) if des else hf.loc())
+
     # ---------------- R07.7 the library never rewrites the caller's layer set
     r07_7(prog, rep)
 
